@@ -29,6 +29,10 @@ func (C11) Describe() CheckInfo {
 }
 
 var c11Probes = []string{
+	// comments and keys that are legal for a node but awkward for an encoder
+	".. head_comment=\"\\n\\n\\n\"", ". foot_comment=\"\\n\"", ".. line_comment=\"--\"", ".. head_comment=\"*/ --> ]]>\"", ".. line_comment=\"a\\nb\"", ". head_comment=\"\"", ".. |= (. head_comment=\"\\r\")",
+	"[{\"name\": \"n1\", \"size\": 1}, [\"x\", \"y\", \"name\"]]", "[[\"a\"], {\"a\": 1}]", "[{\"a\": 1}, 2]", "[[1, 2], \"x\"]", "[{\"a\": 1}, [\"a\"]] | @csv", "[{\"a\": 1}, [\"b\", \"a\"]] | @tsv", "[{}, []]", "[[], {}]",
+	"{\"<<\": 1}", "{\"<<\": \"text\"} | explode(.)", "[{\"<<\": [1, 2]}] | explode(.)", "{\"a\": {\"<<\": null}}", ".[\"<<\"] = .", "with_entries(.key = \"<<\")",
 	"\"ab\" * 9223372036854775807", ".[] * 4611686018427387904", "\"banana\" * 0x7fffffffffffffff", "9223372036854775807 * \"xy\"", "\"x\" * 10000001", "\"abc\" * -1", ".. |= (. * 3000000000)",
 	".[9223372036854775807]", ".[-9223372036854775808]", ".[1:9223372036854775807]", "9223372036854775807 + 1", "-9223372036854775808 - 1", "9223372036854775807 % -1", "-9223372036854775808 / -1",
 	".", "..", "...", ".. | select(. == \"x\")", "sort", "sort_by(.a)", "sort_by(.id)", ".[] | sort_keys(.)", "to_entries", "keys", "length", ".. | tag", "flatten", "unique", "group_by(.a)",
@@ -155,6 +159,7 @@ func (C11) Generate(c *Ctx, r *Rand, index int) *Scenario {
 		text = Pick(rs, []string{
 			"a: &x [1, 2]\nb: *x\nc:\n  <<: {k: v}\n  d: e\n", "? [complex, key]\n: value\n? {m: 1}\n: 2\n", "a: !!binary aGVsbG8=\nb: !!set {x, y}\nc: !custom 3\nd: !!float .inf\ne: -.inf\nf: .nan\n",
 			"- &a 1\n- *a\n- [*a, *a]\n", "a: |\n  block\n  text\nb: >-\n  folded\n  text\n", "--- !tag\na: 1\n...\n---\nb: 2\n", "base: &base\n  x: 1\nderived:\n  <<: *base\n  y: 2\nlist:\n  - <<: [*base]\n", "%YAML 1.1\n---\na: 1\n", "{a: 1, b: [1, {c: d}]}\n", "? a\n", "- - - 1\n    - 2\n", "a: 0o17\nb: 0x1F\nc: 1_000\nd: 2001-12-14t21:59:43.10-05:00\ne: ~\n",
+			"\"<<\": 1\n", "a:\n  <<: text\nb: 2\n", "- <<: [1, 2]\n- <<: 3\n", "{\"<<\": {\"<<\": 1}}\n", "x: &x 1\ny:\n  <<: *x\n", "a:\n  <<: [{k: v}, 7]\n",
 		})
 	}
 	if (fi.Name == "yaml" || fi.Name == "json") && sc.MetaString("special") == "" && rs.Chance(1, 40) {
@@ -594,6 +599,19 @@ func (C11) Judge(c *Ctx, sc *Scenario) []Violation {
 			w2.Watchdog = time.Duration(3*sc.WatchdogS) * time.Second
 		}
 		o2 := w2.Run(sc, RunOpts{Slot: c.Slot})
+		if o2.TimedOut && isEvalAll(sc.Argv) && sc.MetaString("special") == "" {
+			// eval-all multiplies results with the number of documents (crossproduct.go); the input here is
+			// arbitrary text, so the documents cannot be counted off: the same command document by document is the
+			// comparison. A hang that eval mode shares is reported from there.
+			seq := sc.Clone()
+			seq.Argv = evalModeOf(sc.Argv)
+			if o3 := w2.Run(seq, RunOpts{Slot: c.Slot}); !o3.TimedOut {
+				if !c.Quiet {
+					c.Count("probe.eval_all_growth_not_reported_as_hang")
+				}
+				return vs
+			}
+		}
 		if o2.TimedOut {
 			add("O11.2", "hang=watchdog in="+format, fmt.Sprintf("yq did not terminate within %v (isolated re-run)", w2.Watchdog))
 			return vs
